@@ -459,22 +459,22 @@ def clauses(tier):
             "apply_values", check_values,
             "non-trivial = >= 2 accumulate calls with different presentations (vector vs tensor, ndim, axis) and "
             "at least one coefficient with a negative mean",
-            values_cases, quick=1200, thorough=30000,
+            values_cases, quick=1200, thorough=36000,
         ),
         Clause(
             "additive", check_additive,
             "two independent histories (order, partition, presentations) of one data set; non-trivial = the "
             "histories differ and a coefficient has a negative mean",
-            additive_cases, quick=800, thorough=20000,
+            additive_cases, quick=800, thorough=24000,
         ),
         Clause(
             "own_statistics", check_own,
             "no statistics, tensor with >= 2 vectors; non-trivial = ndim >= 3 or negative axis",
-            own_cases, quick=600, thorough=15000,
+            own_cases, quick=600, thorough=18000,
         ),
         Clause(
             "dim_mismatch", check_mismatch,
             "accumulate and apply with a wrong coefficient count must raise ValueError and leave the transform intact",
-            mismatch_cases, quick=400, thorough=8000,
+            mismatch_cases, quick=400, thorough=12000,
         ),
     ]
